@@ -18,10 +18,11 @@ long *g_data; size_t g_cap0;            /* the vector's storage at entry (typed:
 long *g_new; size_t g_allocs, g_alloc_n;
 size_t g_k; long g_old_k;               /* an arbitrary position and its value at entry */
 size_t g_k2; long g_old_k2;             /* a second arbitrary position (source of a shift) */
+size_t g_j;                             /* a third arbitrary position (inside a filled gap) */
 static void vf_havoc_ghosts(void) {
   g_cap0 = nondet_u64(); __CPROVER_assume(g_cap0 < CAP_MAX);
   g_data = malloc((g_cap0 + 1) * sizeof(long)); __CPROVER_assume(g_data != 0);
-  g_allocs = 0; g_k = nondet_u64(); g_k2 = nondet_u64(); g_old_k = nondet_long(); g_old_k2 = nondet_long();
+  g_allocs = 0; g_j = nondet_u64(); g_k = nondet_u64(); g_k2 = nondet_u64(); g_old_k = nondet_long(); g_old_k2 = nondet_long();
 }
 long *MonotonicAllocator_L_long_babylon_MonotonicBufferResource_R_allocate__u64(Alloc_t *a, unsigned long num) {
   __CPROVER_assert(num >= 1 && num < 2 * CAP_MAX, "C12 model: allocation size within the modelled range");
@@ -169,4 +170,59 @@ __CPROVER_assigns(v->_data, v->_capacity, v->_size, v->_constructed_size, o->_da
 __CPROVER_ensures(v->_data == __CPROVER_old(o->_data) && v->_capacity == __CPROVER_old(o->_capacity) && v->_size == __CPROVER_old(o->_size) && v->_constructed_size == __CPROVER_old(o->_constructed_size))
 __CPROVER_ensures(o->_data == __CPROVER_old(v->_data) && o->_capacity == __CPROVER_old(v->_capacity) && o->_size == __CPROVER_old(v->_size) && o->_constructed_size == __CPROVER_old(v->_constructed_size))
 ;
+
+/* resize(n, value): like resize(n), the new elements are copies of value */
+void Vec_resize__long(Vec_t *v, unsigned long n, long *value)
+__CPROVER_requires(SHAPE(v) && __CPROVER_is_fresh(value, sizeof(long)) && n < CAP_MAX && g_allocs == 0 && (g_k >= v->_constructed_size || g_old_k == v->_data[g_k]) && (g_k2 >= v->_constructed_size || g_old_k2 == v->_data[g_k2]))
+__CPROVER_assigns(v->_data, v->_capacity, v->_size, v->_constructed_size, g_new, g_allocs, g_alloc_n, __CPROVER_object_whole(g_data))
+__CPROVER_ensures(v->_size == n && VINV(v) && v->_capacity >= g_cap0)
+__CPROVER_ensures((g_k < n && g_k < __CPROVER_old(v->_size)) ==> v->_data[g_k] == g_old_k)
+__CPROVER_ensures((g_k < n && g_k >= __CPROVER_old(v->_size)) ==> v->_data[g_k] == *value)
+__CPROVER_ensures(n <= g_cap0 ==> KEEPS(v))
+__CPROVER_ensures(v->_constructed_size == MAXU(__CPROVER_old(v->_constructed_size), n))
+;
+//@loop Vec_resize__long 1
+//@  __CPROVER_assigns(@l2:i@, __CPROVER_object_whole(self->_data))
+//@  __CPROVER_loop_invariant(self->_size <= @l2:i@ && @l2:i@ <= @l1:reconstruct_end_size@)
+//@  __CPROVER_loop_invariant((g_k < self->_size) ==> self->_data[g_k] == __CPROVER_loop_entry(self->_data[g_k]))
+//@  __CPROVER_loop_invariant((g_k >= self->_size && g_k < @l2:i@) ==> self->_data[g_k] == *@p2:value@)
+//@  __CPROVER_decreases(@l1:reconstruct_end_size@ - @l2:i@)
+//@end
+//@loop Vec_resize__long 2
+//@  __CPROVER_assigns(@l3:i_2@, self->_constructed_size, __CPROVER_object_whole(self->_data))
+//@  __CPROVER_loop_invariant(@l1:reconstruct_end_size@ <= @l3:i_2@ && @l3:i_2@ <= @p1:count@ && self->_constructed_size == __CPROVER_loop_entry(self->_constructed_size) + (@l3:i_2@ - @l1:reconstruct_end_size@))
+//@  __CPROVER_loop_invariant((g_k < @l1:reconstruct_end_size@) ==> self->_data[g_k] == __CPROVER_loop_entry(self->_data[g_k]))
+//@  __CPROVER_loop_invariant((g_k >= @l1:reconstruct_end_size@ && g_k < @l3:i_2@) ==> self->_data[g_k] == *@p2:value@)
+//@  __CPROVER_decreases(@p1:count@ - @l3:i_2@)
+//@end
+
+/* insert(pos, count, value): std::vector semantics for three arbitrary positions: before the gap unchanged, behind it moved up by
+ * count, inside it a copy of value; checked against prepare_for_insert's contract */
+long *Vec_insert__long(Vec_t *v, long *pos, unsigned long count, long *value)
+__CPROVER_requires(SHAPE(v) && __CPROVER_is_fresh(value, sizeof(long)) && count >= 1 && count < CAP_MAX && v->_size + count < CAP_MAX && g_allocs == 0 && __CPROVER_pointer_in_range_dfcc(g_data, pos, g_data + v->_size) && (size_t)__CPROVER_POINTER_OFFSET(pos) % sizeof(long) == 0)
+__CPROVER_requires((g_k2 >= v->_constructed_size || g_old_k2 == v->_data[g_k2]) && g_k == g_k2 + count && (g_k >= v->_constructed_size || g_old_k == v->_data[g_k]))
+__CPROVER_assigns(v->_data, v->_capacity, v->_size, v->_constructed_size, g_new, g_allocs, g_alloc_n, __CPROVER_object_whole(g_data))
+__CPROVER_ensures(v->_size == __CPROVER_old(v->_size) + count && VINV(v) && v->_capacity >= g_cap0)
+__CPROVER_ensures(__CPROVER_return_value == v->_data + (size_t)(pos - g_data))
+__CPROVER_ensures(g_k2 < (size_t)(pos - g_data) ==> v->_data[g_k2] == g_old_k2)
+__CPROVER_ensures((g_k2 >= (size_t)(pos - g_data) && g_k2 < __CPROVER_old(v->_size)) ==> v->_data[g_k] == g_old_k2)
+__CPROVER_ensures((g_j >= (size_t)(pos - g_data) && g_j < (size_t)(pos - g_data) + count) ==> v->_data[g_j] == *value)
+__CPROVER_ensures(__CPROVER_old(v->_size) + count <= g_cap0 ==> KEEPS(v))
+;
+//@loop Vec_insert__long 1
+//@  __CPROVER_assigns(@l3:i@, __CPROVER_object_whole(self->_data))
+//@  __CPROVER_loop_invariant(@l1:index@ <= @l3:i@ && @l3:i@ <= @l2:reconstruct_end_size@ && @l2:reconstruct_end_size@ <= @l1:index@ + @p2:count@)
+//@  __CPROVER_loop_invariant((g_k2 < @l1:index@) ==> self->_data[g_k2] == __CPROVER_loop_entry(self->_data[g_k2]))
+//@  __CPROVER_loop_invariant((g_k >= @l1:index@ + @p2:count@ && g_k < self->_size) ==> self->_data[g_k] == __CPROVER_loop_entry(self->_data[g_k]))
+//@  __CPROVER_loop_invariant((g_j >= @l1:index@ && g_j < @l3:i@) ==> self->_data[g_j] == *@p3:value@)
+//@  __CPROVER_decreases(@l2:reconstruct_end_size@ - @l3:i@)
+//@end
+//@loop Vec_insert__long 2
+//@  __CPROVER_assigns(@l4:i_2@, self->_constructed_size, __CPROVER_object_whole(self->_data))
+//@  __CPROVER_loop_invariant(@l2:reconstruct_end_size@ <= @l4:i_2@ && @l4:i_2@ <= @l1:index@ + @p2:count@ && self->_constructed_size == __CPROVER_loop_entry(self->_constructed_size) + (@l4:i_2@ - @l2:reconstruct_end_size@))
+//@  __CPROVER_loop_invariant((g_k2 < @l1:index@) ==> self->_data[g_k2] == __CPROVER_loop_entry(self->_data[g_k2]))
+//@  __CPROVER_loop_invariant((g_k >= @l1:index@ + @p2:count@ && g_k < self->_size) ==> self->_data[g_k] == __CPROVER_loop_entry(self->_data[g_k]))
+//@  __CPROVER_loop_invariant((g_j >= @l1:index@ && g_j < @l4:i_2@) ==> self->_data[g_j] == *@p3:value@)
+//@  __CPROVER_decreases(@l1:index@ + @p2:count@ - @l4:i_2@)
+//@end
 #endif
